@@ -612,6 +612,9 @@ pub fn format_code(
 			let value = f64::from_untyped(value.clone())?;
 			// As in C and Python, precision 0 means 1 significant digit
 			let fpprec = fpprec.max(1);
+			// Trailing zeros may be stripped, so zero padding is applied after rendering
+			let zero_padding = usize::from(padding);
+			let padding = 0;
 			let exponent = if value == 0.0 {
 				0.0
 			} else {
@@ -641,6 +644,10 @@ pub fn format_code(
 					clfags.alt,
 					clfags.alt,
 				);
+			}
+			if tmp_out.len() < zero_padding {
+				let sign_len = usize::from(tmp_out.starts_with(['-', '+', ' ']));
+				tmp_out.insert_str(sign_len, &"0".repeat(zero_padding - tmp_out.len()));
 			}
 		}
 		ConvTypeV::Char => match value.clone() {
